@@ -337,7 +337,7 @@ def solo_timeline(text, pop, tick, start, duration):
         job.load_string(text)
         jc = JobControl()
         agent = jc.add_job(job, 'solo')
-        th = agent._thread._st
+        th = world.thread_of_agent(sim, agent)
         sim.join(th, timeout=duration)
         agent.request_stop()
         sim.join(th, timeout=5 + 3 * tick)
@@ -417,7 +417,7 @@ def execute(scenario, chooser):
                 super().start()
         injection.bind(RecClock).to(i_lib.Clock)
         wa = WebApp()
-        jc = wa._jobs
+        jc = world.job_control_of(wa)
         main_job = RecJob('main')
         main_job.load_string(sc['main'])
         if main_job.program is None:
@@ -441,7 +441,7 @@ def execute(scenario, chooser):
         for j in fjobs:
             jc.add_job(j, j.jname)
         st['queued_ev'] = sim.next_event()
-        main_thread = agent._thread._st
+        main_thread = world.thread_of_agent(sim, agent)
         st['main_thread'] = main_thread
 
         def do_stop():
